@@ -322,6 +322,8 @@ func c19(r *core.Run) {
 			"all methods of the field address the same key in the field key space", "methods of "+t+" use different keys/key spaces: "+strings.Join(ks, " | "))
 	}
 	batchStagingRules(r, "C19.B2")
+	byteWrapLint(r, "C19.L2", "pkg/shed", "pkg/shed/leveldb")
+	c19ReverseBound(r)
 }
 
 // batchStagingRules: a driver batch is "applied entirely, in order, at commit": staging an
